@@ -315,6 +315,11 @@ func (p *Parser) noPrefixParseFnError(t *token.Token) {
 }
 
 func (p *Parser) parseExpression(precedence ast.Priority) ast.Node {
+	return p.nested(func() ast.Node { return p.parseExpressionNested(precedence) })
+}
+
+// nested runs one level of recursive descent, refusing to go deeper than MaxNesting.
+func (p *Parser) nested(parse func() ast.Node) ast.Node {
 	if p.tooDeep {
 		return nil
 	}
@@ -325,7 +330,7 @@ func (p *Parser) parseExpression(precedence ast.Priority) ast.Node {
 		return nil
 	}
 	p.depth++
-	n := p.parseExpressionNested(precedence)
+	n := parse()
 	p.depth--
 	return n
 }
@@ -621,7 +626,12 @@ func (p *Parser) parseIfExpression() ast.Node {
 
 		if p.peekTokenIs(token.IF) {
 			p.nextToken()
-			expression.Alternative = &ast.Statements{Statements: []ast.Node{p.parseIfExpression()}}
+			// an else-if chain nests (parser, printer and evaluator recurse on it): it counts as nesting.
+			alt := p.nested(p.parseIfExpression)
+			if p.tooDeep {
+				return nil
+			}
+			expression.Alternative = &ast.Statements{Statements: []ast.Node{alt}}
 			return expression
 		}
 
